@@ -276,6 +276,8 @@ class Program(object):
                 for t in s.targets:
                     if isinstance(t, ast.Name):
                         m.assigns[t.id] = s.value
+            elif isinstance(s, ast.AnnAssign) and s.value is not None and isinstance(s.target, ast.Name):
+                m.assigns[s.target.id] = s.value          # NAME: type = value
             elif isinstance(s, ast.FunctionDef):
                 m.funcs[s.name] = FunctionInfo(m, None, s, 'function')
                 m.funcs[s.name].decorators = _decorator_names(s)
@@ -287,6 +289,8 @@ class Program(object):
                         for t in b.targets:
                             if isinstance(t, ast.Name):
                                 c.attrs[t.id] = b.value
+                    elif isinstance(b, ast.AnnAssign) and b.value is not None and isinstance(b.target, ast.Name):
+                        c.attrs[b.target.id] = b.value
                     elif isinstance(b, ast.FunctionDef):
                         decs = _decorator_names(b)
                         if 'property' in decs:
